@@ -337,7 +337,9 @@ func (w *Worker) apply(st *Stim) {
 					ev.Raw = fmt.Sprintf("sha256:%x:%d", sha256.Sum256(low), len(low))
 				}
 				if r.K == "cmd" && len(r.Args) > 0 {
-					ev.Txt = strings.ToLower(r.Args[0]) // the name as the (case-insensitive) table knows it
+					// the name with its ASCII letters lower-cased (command names are case-insensitive in ASCII only;
+					// a Unicode-aware lower-casing would turn U+212A into 'k'); looking it up is the specification's business
+					ev.Txt = asciiLower(concreteName(r.Args[0]))
 					ev.Num = len(r.Args) - 1
 				}
 			}
@@ -701,6 +703,24 @@ func (w *Worker) reset() {
 	w.Clients = map[string]*Client{}
 	w.expired = map[uint64]bool{}
 	w.Log.Tid = saveTid
+}
+
+func concreteName(a string) string {
+	if strings.HasPrefix(a, "hex:") {
+		hb, _ := hex.DecodeString(a[4:])
+		return string(hb)
+	}
+	return a
+}
+
+func asciiLower(s string) string {
+	b := []byte(s)
+	for k := range b {
+		if b[k] >= 'A' && b[k] <= 'Z' {
+			b[k] += 32
+		}
+	}
+	return string(b)
 }
 
 // lowerName returns the request with its command name (first bulk string) in lower case.
